@@ -161,12 +161,17 @@ package crdt
 //@   loop 1 invariant forall j int :: imp(0 <= j && j < len(grafts), grafts[j] == old(grafts[j]))
 
 //@ func convertMergeFunc
-//@   modifies nothing
+//@   returns-closure
 
 // Merge: both trees must use the same merge mode; the merged tree replaces
 // c.Mast only on success; the graft's version name is recorded as a parent.
+//@ global LWW nonnil
 //@ func (*Tree).Merge
+//@   option separate-paths
 //@   requires c != nil && c.Mast != nil && other != nil && other.Mast != nil
+// the merge function follows the tree's mode: a table of the custom mode (every
+// s3db table: per-column row merge) is never merged value-by-value, and vice versa
+//@   at call:crdt.mergeTrees assert merge-function-follows-the-mode: ite(c.MergeMode == MergeModeCustom, closureOf(arg1, "convertMergeFunc$1"), arg1 == LWW)
 //@   modifies c.Mast, c.MergeSources
 //@   ensures mode-mismatch: imp(c.MergeMode != other.MergeMode, result != nil)
 //@   ensures mast-kept-nonnil: c.Mast != nil
@@ -183,6 +188,10 @@ package crdt
 // Load / NewRoot: a tree handle on a stored (or empty) version.
 //@ func Load
 //@   modifies nothing
+// a stored version is only opened with a configuration of ITS merge mode (a
+// table written with the per-column row merge is never opened value-by-value)
+//@   ensures mode-matches-the-configuration: imp(err == nil && (root.MergeMode == MergeModeLWW || root.MergeMode == MergeModeCustom || root.MergeMode == MergeModeCustomLWW), (root.MergeMode == MergeModeCustom) == (cfg.CustomMerge != nil) && (root.MergeMode == MergeModeCustomLWW) == (cfg.OnConflictMerged != nil))
+//@   ensures needs-value-types: imp(!cfg.UnmarshalerUsesRegisteredTypes && cfg.ValuesLike == nil, err != nil)
 //@   ensures imp(err == nil, result0 != nil && fresh(result0) && result0.Mast != nil && fresh(result0.Mast) && result0.Source == rootName && result0.Created == root.Created && result0.MergeSources == root.MergeSources && result0.MergeMode == root.MergeMode)
 //@   ensures imp(err != nil, result0 == nil)
 
